@@ -28,6 +28,22 @@ pub fn reference(x: &[u8], y: &[u8], ms: i64, mm: i64, go: i64, ge: i64, mode: u
     match mode { 0 => s[m][n], _ => best }
 }
 
+/// the documented model of `custom`, by brute force: the best affine-gap GLOBAL alignment of a sub-range of x against a sub-range of y plus the
+/// clip penalty of every non-empty clipped end; a forbidden clip (MIN_SCORE) is not available
+pub fn custom_optimum(x: &[u8], y: &[u8], ms: i64, mm: i64, go: i64, ge: i64, clips: [i64; 4]) -> i64 {
+    let forbidden = |c: i64| c <= -800_000_000;
+    let mut best = NEG;
+    for xs in 0..=x.len() { for xe in xs..=x.len() { for ys in 0..=y.len() { for ye in ys..=y.len() {
+        let mut pen = 0i64; let mut ok = true;
+        for (nonempty, c) in [(xs > 0, clips[0]), (xe < x.len(), clips[1]), (ys > 0, clips[2]), (ye < y.len(), clips[3])] {
+            if nonempty { if forbidden(c) { ok = false; } else { pen += c; } }
+        }
+        if !ok { continue; }
+        let g = reference(&x[xs..xe], &y[ys..ye], ms, mm, go, ge, 0);
+        if g + pen > best { best = g + pen; }
+    } } } }
+    best
+}
 /// re-score an alignment path and check that it is a real alignment of the reported sub-ranges
 pub fn rescore(a: &Alignment, x: &[u8], y: &[u8], ms: i64, mm: i64, go: i64, ge: i64, clips: [i64; 4]) -> Result<i64, String> {
     let (mut i, mut j) = (a.xstart, a.ystart);
@@ -95,6 +111,20 @@ fn check(x: &[u8], y: &[u8], ms: i32, mm: i32, go: i32, ge: i32, warm: &[u8]) ->
         if got != a.score as i64 { return Err(format!("custom: path {:?} re-scores to {} but the reported score is {}", a.operations, got, a.score)); }
         let g = reference(&x, &y, msl, mml, gol, gel, 0);
         if (a.score as i64) < g { return Err(format!("custom with clips scores {} below the global optimum {}", a.score, g)); }
+        // custom with four INDEPENDENT clip penalties chosen by the input (forbidden / free / small): the reported score is the optimum of the
+        // documented model (brute force over all sub-ranges) and the path re-scores to it
+        if x.len() <= 7 && y.len() <= 7 {
+            let pick = |i: usize| -> i32 { match (x.len() * 7 + y.len() * 3 + i * 5 + (ms as usize) + warm.len()) % 4 { 0 => MIN_SCORE, 1 => 0, 2 => -1, _ => -3 } };
+            let cl = [pick(0), pick(1), pick(2), pick(3)];
+            let mut al = Aligner::with_scoring(Scoring::from_scores(go, ge, ms, mm).xclip_prefix(cl[0]).xclip_suffix(cl[1]).yclip_prefix(cl[2]).yclip_suffix(cl[3]));
+            if !warm.is_empty() { al.local(&warm, &x); }
+            let a = al.custom(&x, &y);
+            let clips = [cl[0] as i64, cl[1] as i64, cl[2] as i64, cl[3] as i64];
+            let got = rescore(&a, &x, &y, msl, mml, gol, gel, clips).map_err(|e| format!("custom clips {:?}: {}", cl, e))?;
+            if got != a.score as i64 { return Err(format!("custom clips {:?}: path {:?} re-scores to {} but the reported score is {}", cl, a.operations, got, a.score)); }
+            let opt = custom_optimum(&x, &y, msl, mml, gol, gel, clips);
+            if a.score as i64 != opt { return Err(format!("custom clips {:?}: score {} but the optimum of the documented model is {} (path {:?})", cl, a.score, opt, a.operations)); }
+        }
         // reuse with distinct clip penalties: a mode call must not disturb a later custom() on the same aligner
         {
             let sc = || Scoring::from_scores(go, ge, ms, mm).xclip_prefix(-1).xclip_suffix(-2).yclip_prefix(-3).yclip_suffix(-4);
